@@ -74,8 +74,12 @@ func (r *Reader) readMdat(b *box) (err error) {
 }
 
 func (r *Reader) newExifBox(b *box) (inner box, err error) {
-	if _, err = b.Discard(int(r.heic.exif.ol.offset) - b.offset - 16); err != nil {
-		return
+	// The search window starts a few bytes before the item, but never before the box's payload
+	// (an item at the very start of mdat).
+	if skip := int(r.heic.exif.ol.offset) - b.offset - 16; skip > 0 {
+		if _, err = b.Discard(skip); err != nil {
+			return
+		}
 	}
 	buf, err := b.Peek(16)
 	if err != nil {
@@ -89,13 +93,20 @@ func (r *Reader) newExifBox(b *box) (inner box, err error) {
 		}
 	}
 
+	// The box starts where the window starts: the bytes of the window that precede the item are
+	// part of it, so that its end is the end of the item.
+	offset := int(b.size) - b.remain + b.offset
+	lead := int(r.heic.exif.ol.offset) - offset
+	if lead < 0 {
+		lead = 0
+	}
 	inner = box{
 		reader:  b.reader,
 		outer:   b,
 		boxType: typeExif,
-		offset:  int(b.size) - b.remain + b.offset,
-		size:    int64(r.heic.exif.ol.length),
-		remain:  int(r.heic.exif.ol.length),
+		offset:  offset,
+		size:    int64(r.heic.exif.ol.length) + int64(lead),
+		remain:  int(r.heic.exif.ol.length) + lead,
 	}
 
 	_, err = inner.Discard(size + 4)
@@ -103,7 +114,7 @@ func (r *Reader) newExifBox(b *box) (inner box, err error) {
 }
 
 func readExifHeader(b *box, firstIfd ifds.IfdType, it imagetype.ImageType) (header meta.ExifHeader, err error) {
-	buf, err := b.Peek(16)
+	buf, err := b.Peek(8) // the TIFF header: byte order, magic number, offset of the first IFD
 	if err != nil {
 		err = errors.WithMessage(err, "readExifHeader")
 		return
